@@ -70,207 +70,16 @@ use vh::prog::{self, Program, D};
 use vh::refarith::GOLDILOCKS;
 use vh::util::*;
 
-type PC = PoseidonGoldilocksConfig;
-type KC = KeccakGoldilocksConfig;
 
-// ---------------------------------------------------------------------------------------------
-// serializers generated by the library's own macros: the default lists plus the base-4 gate and
-// generators (opcode split_base4); the generator list has no DummyProofGenerator and therefore
-// does not depend on the hash configuration (usable under Keccak).
-// ---------------------------------------------------------------------------------------------
-pub struct GateSer4;
-impl<F: RichField + Extendable<D>, const D: usize> GateSerializer<F, D> for GateSer4 {
-    impl_gate_serializer! {
-        GateSer4,
-        ArithmeticGate,
-        ArithmeticExtensionGate<D>,
-        BaseSumGate<2>,
-        BaseSumGate<4>,
-        ConstantGate,
-        CosetInterpolationGate<F, D>,
-        ExponentiationGate<F, D>,
-        LookupGate,
-        LookupTableGate,
-        MulExtensionGate<D>,
-        NoopGate,
-        PoseidonMdsGate<F, D>,
-        PoseidonGate<F, D>,
-        PublicInputGate,
-        RandomAccessGate<F, D>,
-        ReducingExtensionGate<D>,
-        ReducingGate<D>
-    }
-}
-pub struct GenSer4;
-impl<F: RichField + Extendable<D>, const D: usize> WitnessGeneratorSerializer<F, D> for GenSer4 {
-    impl_generator_serializer! {
-        GenSer4,
-        ArithmeticBaseGenerator<F, D>,
-        ArithmeticExtensionGenerator<F, D>,
-        BaseSplitGenerator<2>,
-        BaseSplitGenerator<4>,
-        BaseSumGenerator<2>,
-        BaseSumGenerator<4>,
-        ConstantGenerator<F>,
-        CopyGenerator,
-        EqualityGenerator,
-        ExponentiationGenerator<F, D>,
-        InterpolationGenerator<F, D>,
-        LookupGenerator,
-        LookupTableGenerator,
-        LowHighGenerator,
-        MulExtensionGenerator<F, D>,
-        NonzeroTestGenerator,
-        PoseidonGenerator<F, D>,
-        PoseidonMdsGenerator<D>,
-        QuotientGeneratorExtension<D>,
-        RandomAccessGenerator<F, D>,
-        RandomValueGenerator,
-        ReducingGenerator<D>,
-        ReducingExtensionGenerator<D>,
-        SplitGenerator,
-        WireSplitGenerator
-    }
-}
+#[path = "../c17c19_kit.rs"]
+#[allow(dead_code)]
+mod kit;
+use kit::*;
 
 struct Sers<'a> {
     name: &'static str,
     gs: &'a dyn GateSerializer<F, D>,
     ws: &'a dyn WitnessGeneratorSerializer<F, D>,
-}
-
-// ---------------------------------------------------------------------------------------------
-// circuits
-// ---------------------------------------------------------------------------------------------
-struct Circ<C: GenericConfig<D, F = F>> {
-    data: CircuitData<F, C, D>,
-    /// the partial witnesses of the two inputs of the histories
-    pws: Vec<PartialWitness<F>>,
-    /// targets on which generated witnesses are compared (program values / public inputs)
-    watch: Vec<Target>,
-    label: String,
-}
-
-fn read_lines(path: &str) -> anyhow::Result<Vec<Value>> {
-    let f = std::fs::File::open(path)?;
-    let mut v = vec![];
-    for l in std::io::BufReader::new(f).lines() {
-        let l = l?;
-        if l.trim().is_empty() {
-            continue;
-        }
-        v.push(serde_json::from_str(&l)?);
-    }
-    Ok(v)
-}
-
-fn concretize(class: &str, r: &mut impl Rng) -> u64 {
-    let p = GOLDILOCKS;
-    let parts: Vec<&str> = class.split(':').collect();
-    match parts[0] {
-        "zero" => 0,
-        "one" => 1,
-        "two" => 2,
-        "pm1" => p - 1,
-        "pm2" => p - 2,
-        "pow2" => 1u64 << parts[1].parse::<u32>().unwrap(),
-        "pow2m1" => (1u64 << parts[1].parse::<u32>().unwrap()) - 1,
-        "small" => r.gen_range(0..parts[1].parse::<u64>().unwrap()),
-        "eps" => 0xFFFF_FFFF,
-        _ => r.gen_range(0..p),
-    }
-}
-
-/// two satisfying input tuples for `prog` (the class vector first, then fixed fallbacks)
-fn sat_inputs(prog: &Program, classes: &[String], r: &mut impl Rng) -> Vec<(Vec<u64>, Vec<u64>)> {
-    let mut cands: Vec<Vec<u64>> = vec![];
-    cands.push(classes.iter().map(|c| concretize(c, r)).collect());
-    cands.push(classes.iter().map(|c| concretize(c, r)).collect());
-    for t in [[0u64, 1, 2], [3, 3, 5], [1, 1, 1], [0, 0, 0], [7, 11, 13], [2, 1, 0]] {
-        cands.push(t.to_vec());
-    }
-    for _ in 0..4 {
-        cands.push((0..prog.nin).map(|_| r.gen_range(0..16u64)).collect());
-    }
-    let mut out: Vec<(Vec<u64>, Vec<u64>)> = vec![];
-    for c in cands {
-        let mut c = c;
-        c.resize(prog.nin, 1);
-        if out.iter().any(|(i, _)| *i == c) {
-            continue;
-        }
-        if let Ok(st) = prog::interp(prog, &c, GOLDILOCKS, 64) {
-            out.push((c, st.vals));
-            if out.len() == 2 {
-                break;
-            }
-        }
-    }
-    if out.len() == 1 {
-        out.push(out[0].clone());
-    }
-    out
-}
-
-/// program circuit; Err(reason) = not a case (inadmissible, unsatisfiable, build refused)
-fn build_prog<C: GenericConfig<D, F = F>>(prog: &Program, cfg: &CfgSpec, classes: &[String], r: &mut impl Rng, noop: bool) -> Result<Circ<C>, String> {
-    let with_pis = cfg.width != "narrow";
-    if !prog::admissible(prog, &cfg.config(), with_pis) {
-        return Err("inadmissible: row width".into());
-    }
-    let ins = sat_inputs(prog, classes, r);
-    if ins.is_empty() {
-        return Err("unsat: no satisfying input found".into());
-    }
-    let probe = guarded(|| {
-        let mut b = CircuitBuilder::<F, D>::new(cfg.probe_config());
-        let built = prog::build(prog, &mut b, 64).map_err(|e| e.to_string())?;
-        if with_pis {
-            b.register_public_inputs(&built.vals);
-        }
-        if noop {
-            b.add_gate(NoopGate, vec![]);
-        }
-        Ok::<usize, String>(b.build::<C>().common.degree_bits())
-    });
-    let degree_bits = match probe {
-        Ok(Ok(d)) => d,
-        Ok(Err(e)) => return Err(format!("build_failed: {e}")),
-        Err(p) => return Err(format!("build_failed: panic {p}")),
-    };
-    if let Err(why) = cfg.fri_admissible(degree_bits) {
-        return Err(format!("inadmissible: {why}"));
-    }
-    if cfg.strat == "minsize" {
-        let ar = cfg.strategy().reduction_arity_bits(degree_bits, cfg.rate, cfg.cap, cfg.q);
-        let s: usize = ar.iter().sum();
-        if degree_bits + cfg.rate < s + cfg.cap {
-            return Err("inadmissible: MinSize schedule folds below the cap height".into());
-        }
-    }
-    let built = guarded(|| {
-        let mut b = CircuitBuilder::<F, D>::new(cfg.config());
-        let built = prog::build(prog, &mut b, 64).map_err(|e| e.to_string())?;
-        if with_pis {
-            b.register_public_inputs(&built.vals);
-        }
-        if noop {
-            // dummy_circuit (conditional recursion) pads with no-op gates: the inner circuit must have the gate
-            b.add_gate(NoopGate, vec![]);
-        }
-        Ok::<_, String>((built, b.build::<C>()))
-    });
-    let (built, data) = match built {
-        Ok(Ok(x)) => x,
-        Ok(Err(e)) => return Err(format!("build_failed: {e}")),
-        Err(p) => return Err(format!("build_failed: panic {p}")),
-    };
-    let mut pws = vec![];
-    for (i, vals) in &ins {
-        pws.push(prog::witness(&built, i, vals).map_err(|e| format!("witness_failed: {e}"))?);
-    }
-    let ops: Vec<&str> = prog.instrs.iter().map(|i| i.op.as_str()).collect();
-    Ok(Circ { data, pws, watch: built.vals.clone(), label: format!("prog[{}]", ops.join("+")) })
 }
 
 /// a circuit verifying a proof of `inner` (two inner proofs = the two inputs)
@@ -1064,72 +873,6 @@ fn replay(args: &[String]) -> anyhow::Result<()> {
 // ---------------------------------------------------------------------------------------------
 // STARK side: starky offers serde on proofs and to_buffer/from_buffer on proof targets
 // ---------------------------------------------------------------------------------------------
-#[derive(Copy, Clone)]
-struct Fib<FF: RichField + Extendable<DD>, const DD: usize> {
-    num_rows: usize,
-    _p: PhantomData<FF>,
-}
-impl<FF: RichField + Extendable<DD>, const DD: usize> Fib<FF, DD> {
-    fn trace(&self, x0: FF, x1: FF) -> Vec<PolynomialValues<FF>> {
-        let rows = (0..self.num_rows)
-            .scan([x0, x1], |acc, _| {
-                let t = *acc;
-                acc[0] = t[1];
-                acc[1] = t[0] + t[1];
-                Some(t)
-            })
-            .collect::<Vec<_>>();
-        trace_rows_to_poly_values(rows)
-    }
-}
-impl<FF: RichField + Extendable<DD>, const DD: usize> Stark<FF, DD> for Fib<FF, DD> {
-    type EvaluationFrame<FE, P, const D2: usize>
-        = StarkFrame<P, P::Scalar, 2, 3>
-    where
-        FE: FieldExtension<D2, BaseField = FF>,
-        P: PackedField<Scalar = FE>;
-    type EvaluationFrameTarget = StarkFrame<ExtensionTarget<DD>, ExtensionTarget<DD>, 2, 3>;
-    fn eval_packed_generic<FE, P, const D2: usize>(&self, vars: &Self::EvaluationFrame<FE, P, D2>, y: &mut ConstraintConsumer<P>)
-    where
-        FE: FieldExtension<D2, BaseField = FF>,
-        P: PackedField<Scalar = FE>,
-    {
-        let lv = vars.get_local_values();
-        let nv = vars.get_next_values();
-        let pi = vars.get_public_inputs();
-        y.constraint_first_row(lv[0] - pi[0]);
-        y.constraint_first_row(lv[1] - pi[1]);
-        y.constraint_last_row(lv[1] - pi[2]);
-        y.constraint_transition(nv[0] - lv[1]);
-        y.constraint_transition(nv[1] - lv[0] - lv[1]);
-    }
-    fn eval_ext_circuit(&self, b: &mut CircuitBuilder<FF, DD>, vars: &Self::EvaluationFrameTarget, y: &mut RecursiveConstraintConsumer<FF, DD>) {
-        let lv = vars.get_local_values();
-        let nv = vars.get_next_values();
-        let pi = vars.get_public_inputs();
-        let c0 = b.sub_extension(lv[0], pi[0]);
-        let c1 = b.sub_extension(lv[1], pi[1]);
-        let c2 = b.sub_extension(lv[1], pi[2]);
-        y.constraint_first_row(b, c0);
-        y.constraint_first_row(b, c1);
-        y.constraint_last_row(b, c2);
-        let t0 = b.sub_extension(nv[0], lv[1]);
-        y.constraint_transition(b, t0);
-        let t1 = {
-            let t = b.sub_extension(nv[1], lv[0]);
-            b.sub_extension(t, lv[1])
-        };
-        y.constraint_transition(b, t1);
-    }
-    fn constraint_degree(&self) -> usize {
-        2
-    }
-}
-
-fn fib_n(n: usize, x0: F, x1: F) -> F {
-    (0..n).fold((x0, x1), |a, _| (a.1, a.0 + a.1)).1
-}
-
 fn stark(args: &[String]) -> anyhow::Result<()> {
     let flip = args.iter().any(|a| a == "--flip");
     let mut checks = vec![];
